@@ -79,7 +79,8 @@ void AsyncFileAppender::keep_writing() noexcept {
         [&](Queue::Iterator iter, Queue::Iterator end) {
           while (iter < end) {
             auto& item = *iter++;
-            if (ABSL_PREDICT_FALSE(item.entry.size == 0)) {
+            // 停止标记通过file == nullptr表达，空日志（size == 0）是合法输入不能当作停止标记
+            if (ABSL_PREDICT_FALSE(item.file == nullptr)) {
               stop = true;
               break;
             }
